@@ -735,7 +735,10 @@ def g_demes(s, P):
             continue
         gid, sd, ns = s.choice(DEMES_CASES)
         pts = 6 if len(sd) >= 4 else s.choice([6, 8])
-        fs = P.add('from_demes', gid, sd, ns, pts)
+        if s.chance(0.25):
+            fs = P.add('from_demes', gid, sd, ns, pts, None, None, True)       # through a YAML file of a fixed name
+        else:
+            fs = P.add('from_demes', gid, sd, ns, pts)
         if s.chance(0.4):
             P.add('S.fold', fs)
     return P
